@@ -1,10 +1,6 @@
 SPECIFICATION Spec
 CONSTANTS
-  DocSet = "unit"
-  CfgSet = "any"
-  MaxComments = 2
-  OnlyDocumented = FALSE
-  Specials = TRUE
+  Plans <- DefaultPlans
 INVARIANTS
   Preserved
   CommentsKept
